@@ -161,6 +161,9 @@ def k_rules(p: Project, rep: Report):
         b = _bind(c, [a.arg for a in rfn0.args.args[1:]]) if rfn0 is not None else {k.arg: k.value for k in c.keywords}
         if "dtprofup" in b:
             held_exprs.append((n, b["dtprofup"]))
+    other_dates: Set[str] = set()
+    odd_dates: Set[str] = set()
+
     def fresher_than_held(q, facts):
         """do the facts establish `nothing is held, or the server's date is not older than the held one`?
         True / False / None (too many conditions)"""
@@ -185,6 +188,15 @@ def k_rules(p: Project, rep: Report):
                     l_net, r_net = NET in lo, NET in ro
                     l_held = from_cache(lo) or text(l) in held_names
                     r_held = from_cache(ro) or text(r_) in held_names
+                    # the date that says how new the profile about to be stored is, is that profile's own DTPROFUP
+                    net_side = l if (l_net and not r_net) else (r_ if (r_net and not l_net) else None)
+                    if net_side is not None:
+                        nv = value_on_path(q, cfg, net_side, upto=cw.pos)
+                        nt = text(nv)
+                        if isinstance(nv, (ast.BoolOp, ast.IfExp)) or "sonrs" in nt.lower():
+                            other_dates.add(nt[:80])
+                        elif not (nt.endswith(".dtprofup") and "profrs" in nt.lower()):
+                            odd_dates.add(nt[:80])
                     if l_net and r_held and not r_net:
                         items.append(atom(a, False))  # not (server < held)
                         items.append(atom(f"{text(r_)} is None", True))
@@ -296,6 +308,10 @@ def k_rules(p: Project, rep: Report):
                 rep.check("K-R1", f"request_profile:{lab}:{name}", ok, why[name] if not ok else "", loc(p, c))
         for u in sorted(undec):
             rep.note(f"K-R1 undecided for {lab}: {u}")
+        if through:
+            rep.check("K-R1", f"request_profile:{lab}:date-compared-is-the-stored-profile's", not other_dates, f"the date compared with the held one is {sorted(other_dates)[0]}: not (only) the DTPROFUP of the PROFRS that is about to be stored - a reply whose sign-on carries a later date than its profile lets an OLDER profile replace the cached one, and the next request asks with the older date" if other_dates else "", loc(p, c))
+            for o_ in sorted(odd_dates):
+                rep.note(f"K-R1 undecided for {lab}: the server-side date compared is {o_}")
 
     # what is written is the validated response
     for n, c, _ in nodes_with(lambda c: True if isinstance(c.func, ast.Attribute) and c.func.attr in ("write", "write_bytes", "write_text", "writelines") and c.args else None) + nodes_with(lambda c: True if (dotted(c.func) or "") in ("shutil.copyfileobj",) and c.args else None):
